@@ -213,6 +213,23 @@ def check_case(ctx, c, ans0, ans1):
     except Exception as e:
         ctx.violate(f"delay_and_sum raised {type(e).__name__}: {e}", cj, {"kind": "raises"})
         return
+    # the same image through the view door (`tfm_for_view` takes the two lookup tables from the transmit and the receive path of a
+    # view and applies no timetrace weights): the transmit table must stay the transmit table
+    if c["weights"] is None and not c.get("prealloc") and not c["amp"]:
+        import types
+        from arim.im import tfm as _tfm
+        view_ = types.SimpleNamespace(name="X-Y", tx_path=types.SimpleNamespace(rays=types.SimpleNamespace(times=np.ascontiguousarray(np.asarray(c["lt_tx"]).T))),
+                                      rx_path=types.SimpleNamespace(rays=types.SimpleNamespace(times=np.ascontiguousarray(np.asarray(c["lt_rx"]).T))))
+        grid_ = types.SimpleNamespace(shape=(np.asarray(c["lt_tx"]).shape[0],))
+        try:
+            rv = np.asarray(_tfm.tfm_for_view(fixtures.make_frame(c["tt"], c["t0"], c["dt"], c["tx"], c["rx"]), grid_, view_,
+                                              fillvalue=c["fill"], interpolation=c["interp"]).res)
+            same_ = rv.shape == np.shape(res) and np.array_equal(rv, np.asarray(res), equal_nan=True)
+        except Exception as e:
+            same_ = False
+        ctx.count("view_door")
+        if not same_:
+            ctx.violate("tfm_for_view on a view holding the same two lookup tables gives another image than delay_and_sum with the focal law made of them", cj, {"kind": "view_door"})
     fill = c["fill"]
     isnan = fill != fill
     want0, used, scale = definition(c, None if isnan else complex(fill))
